@@ -320,30 +320,39 @@ theorem lMul_rot_fast (L : ℕ) (c : List K) (hc : c.length = L) (x : List (List
     · rw [ent2_of_length_le _ r l (by rw [lMul_length, rotFast_length]; exact hr),
         ent2_of_length_le _ r l (by rw [rotFast_length, hml]; exact hr)]
 
-/-- **T10.2 (latitude derivatives, fast layout)** -/
-theorem twoTerm_rot_fast (L : ℕ) (ca cb : ℕ → K) (a b : List (List K))
-    (ha : ∀ m, a.getD (2 * m + 1) [] = a.getD (2 * m) [])
-    (hb : ∀ m, b.getD (2 * m + 1) [] = b.getD (2 * m) [])
+/-- **T10.2 (latitude derivatives, fast layout)**: the weights of the two rows of every pair `m ≥ 1`
+ agree; the pair `m = 0` (whose `-0` row is masked out, so its weights are zero) is not rotated at all
+ (`sin 0 = 0`) -/
+theorem twoTerm_rot_fast (hsn : sn 0 = 0) (L : ℕ) (ca cb : ℕ → K) (a b : List (List K))
+    (ha : ∀ m, 1 ≤ m → a.getD (2 * m + 1) [] = a.getD (2 * m) [])
+    (hb : ∀ m, 1 ≤ m → b.getD (2 * m + 1) [] = b.getD (2 * m) [])
     (x : List (List K)) (heven : x.length % 2 = 0) (hM : 2 * M ≤ x.length)
     (hx : ∀ row ∈ x, row.length = L) :
     twoTerm ca cb a b (rotFast cs sn M N k x) = rotFast cs sn M N k (twoTerm ca cb a b x) := by
   have htl := twoTerm_length ca cb a b x
   have htr := twoTerm_rows ca cb a b x L hx
   have hrr := rotFast_rows cs sn M N k x L hx heven hM
-  have hpair : ∀ (w : List (List K)), (∀ m, w.getD (2 * m + 1) [] = w.getD (2 * m) []) →
-      ∀ r l, ent2 w ((fastRow cs sn M N k).nb r) l = ent2 w r l := by
-    intro w hw r l
+  have hpair : ∀ (w : List (List K)), (∀ m, 1 ≤ m → w.getD (2 * m + 1) [] = w.getD (2 * m) []) →
+      ∀ r, 2 ≤ r → ∀ l, ent2 w ((fastRow cs sn M N k).nb r) l = ent2 w r l := by
+    intro w hw r hr2 l
     rcases fast_row_cases M r with h | ⟨m, hm, rfl⟩ | ⟨m, hm, rfl⟩
     · simp [fastRow, h]
     · have h0 : ¬ 2 * M ≤ 2 * m := by omega
       have h2 : 2 * m % 2 = 0 := by omega
       simp only [fastRow, h0, if_false, h2, if_true]
-      simp only [ent2, hw m]
+      simp only [ent2, hw m (by omega)]
     · have h0 : ¬ 2 * M ≤ 2 * m + 1 := by omega
       have h2 : ¬ (2 * m + 1) % 2 = 0 := by omega
       have h3 : 2 * m + 1 - 1 = 2 * m := by omega
       simp only [fastRow, h0, if_false, h2, h3]
-      simp only [ent2, hw m]
+      simp only [ent2, hw m (by omega)]
+  have hβ : ∀ r, r < 2 → (fastRow cs sn M N k).β r = 0 := by
+    intro r hr
+    have h1 : r / 2 = 0 := by omega
+    simp only [fastRow, h1, Nat.zero_mul, Nat.zero_mod, hsn, neg_zero]
+    split
+    · rfl
+    · split <;> rfl
   apply ext_ent2 _ _ L
   · rw [twoTerm_length, rotFast_length, rotFast_length, htl]
   · exact twoTerm_rows ca cb a b _ L hrr
@@ -359,8 +368,12 @@ theorem twoTerm_rot_fast (L : ℕ) (ca cb : ℕ → K) (a b : List (List K))
       have hnb : (fastRow cs sn M N k).nb r < x.length := fastRow_nb_lt cs sn M N k _ heven hM r hr
       simp only [RowMap.app]
       rw [e1 r hr l, e1 _ hnb l]
-      have := twoTermEnt_app (fastRow cs sn M N k) ca cb (ent2 a) (ent2 b) (ent2 x) L r l
-        (hpair a ha r) (hpair b hb r)
+      have := (if h2 : 2 ≤ r then
+          twoTermEnt_app (fastRow cs sn M N k) ca cb (ent2 a) (ent2 b) (ent2 x) L r l
+            (hpair a ha r h2) (hpair b hb r h2)
+        else
+          twoTermEnt_app_of_beta (fastRow cs sn M N k) ca cb (ent2 a) (ent2 b) (ent2 x) L r l
+            (hβ r (by omega)))
       simp only [RowMap.app] at this
       rw [← this]
       unfold twoTermEnt
